@@ -144,6 +144,94 @@ func main() {
 	sort.Strings(order)
 	type site struct{ fn, what string }
 	var sites []site
+
+	// 3b. the same for hand-written methods and functions of x/crosschain/types that the reachable keeper functions call
+	//     (by name; generated *.pb.go files excluded): receiver-qualified, one package deep, transitively inside types
+	tdir := filepath.Join(repo, "x/crosschain/types")
+	tpkgs, terr := parser.ParseDir(fset, tdir, func(fi os.FileInfo) bool {
+		return !strings.HasSuffix(fi.Name(), "_test.go") && !strings.HasSuffix(fi.Name(), ".pb.go") && !strings.HasSuffix(fi.Name(), ".pb.gw.go")
+	}, 0)
+	if terr != nil {
+		die("parse %s: %v", tdir, terr)
+	}
+	tfuncs := map[string][]*ast.FuncDecl{} // by bare name
+	tlabel := func(fd *ast.FuncDecl) string {
+		if fd.Recv != nil && len(fd.Recv.List) == 1 {
+			return "types." + strings.TrimPrefix(src(fset, fd.Recv.List[0].Type), "*") + "." + fd.Name.Name
+		}
+		return "types." + fd.Name.Name
+	}
+	for _, p := range tpkgs {
+		for _, f := range p.Files {
+			for _, d := range f.Decls {
+				if fd, ok := d.(*ast.FuncDecl); ok && fd.Body != nil {
+					tfuncs[fd.Name.Name] = append(tfuncs[fd.Name.Name], fd)
+				}
+			}
+		}
+	}
+	generic := map[string]bool{"String": true, "Len": true, "Less": true, "Swap": true, "Error": true, "Equal": false}
+	tseen := map[string]bool{}
+	var torder []string
+	tbody := map[string]*ast.FuncDecl{}
+	var twalk func(body *ast.BlockStmt, fromTypes bool)
+	twalk = func(body *ast.BlockStmt, fromTypes bool) {
+		ast.Inspect(body, func(n ast.Node) bool {
+			call, ok := n.(*ast.CallExpr)
+			if !ok {
+				return true
+			}
+			name := ""
+			switch f := call.Fun.(type) {
+			case *ast.SelectorExpr:
+				if id, ok := f.X.(*ast.Ident); ok && (id.Name == "k" || id.Name == "s") && !fromTypes {
+					return true // keeper method, handled above
+				}
+				name = f.Sel.Name
+			case *ast.Ident:
+				if fromTypes {
+					name = f.Name
+				}
+			}
+			if name == "" || generic[name] {
+				return true
+			}
+			for _, fd := range tfuncs[name] {
+				l := tlabel(fd)
+				if !tseen[l] {
+					tseen[l] = true
+					torder = append(torder, l)
+					tbody[l] = fd
+					twalk(fd.Body, true)
+				}
+			}
+			return true
+		})
+	}
+	for _, fn := range order {
+		twalk(funcs[fn].Body, false)
+	}
+	sort.Strings(torder)
+	var tsites []site
+	for _, l := range torder {
+		ast.Inspect(tbody[l].Body, func(n ast.Node) bool {
+			call, ok := n.(*ast.CallExpr)
+			if !ok {
+				return true
+			}
+			switch f := call.Fun.(type) {
+			case *ast.Ident:
+				if f.Name == "panic" {
+					tsites = append(tsites, site{l, "panic"})
+				}
+			case *ast.SelectorExpr:
+				if strings.HasPrefix(f.Sel.Name, "Must") && f.Sel.Name != "MustMarshal" && f.Sel.Name != "MustUnmarshal" {
+					tsites = append(tsites, site{l, f.Sel.Name})
+				}
+			}
+			return true
+		})
+	}
 	for _, fn := range order {
 		ast.Inspect(funcs[fn].Body, func(n ast.Node) bool {
 			call, ok := n.(*ast.CallExpr)
@@ -298,6 +386,14 @@ func main() {
 		ss = append(ss, fmt.Sprintf("(\"%s\", \"%s\")", s.fn, s.what))
 	}
 	sb.WriteString("Definition gen_panic_sites : list (string * string) :=\n  [" + strings.Join(ss, ";\n   ") + "].\n")
+	{
+		var ts []string
+		for _, x := range tsites {
+			ts = append(ts, fmt.Sprintf("(\"%s\", \"%s\")", x.fn, x.what))
+		}
+		sb.WriteString("Definition gen_reachable_types : list string := " + q(torder) + ".\n")
+		sb.WriteString("Definition gen_types_panic_sites : list (string * string) :=\n  [" + strings.Join(ts, ";\n   ") + "].\n")
+	}
 	sb.WriteString("Definition gen_oset_writers : list (string * string) :=\n  [" + strings.Join(writers, ";\n   ") + "].\n")
 	sb.WriteString("Definition gen_gov_halting_calls : list (string * string) :=\n  [" + strings.Join(govHalts, ";\n   ") + "].\n")
 	sb.WriteString(fmt.Sprintf("Definition gen_gov_safe_execute_recovers : bool := %v.\n", govRecovers))
